@@ -147,6 +147,7 @@ func cmdCheck(args []string) int {
 	}
 	loadTime := time.Since(t0)
 	cfg := defaultConfig(*tier)
+	cfg.Owner = prop
 	if spec.TimeoutMs > 0 {
 		cfg.TimeoutMs = spec.TimeoutMs
 	}
